@@ -12,7 +12,7 @@ from fractions import Fraction as Fr
 import numpy as np
 
 from core.canon import fingerprint
-from core.common import H, T0, compose, fm, hrs
+from core.common import H, T0, compose, fm, hrs, set_time_unit
 from core import refmodels as R
 
 from finam.interfaces import ComponentStatus as CS
@@ -330,6 +330,7 @@ class Run:
 
     def __init__(self, cfg, script=None, default=False):
         World.cur = self
+        set_time_unit(cfg.get("unit_us", 3600 * 10**6))  # the whole lattice can be re-run at another time scale
         self.default = default  # stateless mode: when the script is exhausted take the first menu entry instead of pausing
         self.choices = Log()
         self.choices["made"] = []
@@ -618,6 +619,7 @@ class Run:
     def resume(self):
         """(re-)enters the real run(); returns ('pause', comp) | ('done',) | ('circular', msg) | ('exc', cls, msg) | ('hang',)"""
         World.cur = self
+        set_time_unit(self.cfg.get("unit_us", 3600 * 10**6))
         try:
             self.c.run(end_time=T0 + H(self.end))
             self.outcome = ("done",)
